@@ -166,7 +166,8 @@ def canon_pkg(out):
 def run_impl(case):
     res = src_resources(case['pkg'])
     steps = steps_of(case)
-    out = run_stream(res, steps)
+    one_shot = case['kind'] == 'append' and case['how'] in ('load_tuple', 'sources')
+    out = run_stream(res, steps, rerun=not one_shot)
     if 'error' in out:
         return {'error': out['error'], 'exc': out['exc']}
     r = {'pkg': canon_pkg(out), 'ndesc': len(out['dp']['resources']), 'nstreams': len(out['rows'])}
